@@ -716,11 +716,38 @@ def public(cfg):
     return {k: v for k, v in cfg.items() if not k.startswith("_")}
 
 
-def eval_case(case: dict, with_model=False):
-    """-> dict(skipped=bool, problems=[(level, signature-suffix, message)], stats)"""
+def case_input(case: dict):
+    """(site, configuration, generated input dict) of a case: the input is a pure function of (site generator, cfg, n, seed)"""
     s = SITES[case["site"]]
     cfg = s.cfgs[case["cfg"]]
-    d = s.gen(tgen(case["seed"]), case["n"], cfg)
+    return s, cfg, s.gen(tgen(case["seed"]), case["n"], cfg)
+
+
+def fingerprint(d: dict) -> str:
+    """content hash of a generated input (tensor dtype, shape and bytes; sentences as text): recorded with a violation so that a
+    replay can tell that it regenerated exactly the input that failed"""
+    import hashlib
+    h = hashlib.sha1()
+    for k in sorted(d):
+        v = d[k]
+        if isinstance(v, torch.Tensor):
+            h.update(f"{k}|{v.dtype}|{tuple(v.shape)}|".encode())
+            h.update(v.detach().contiguous().cpu().numpy().tobytes())
+        else:
+            h.update(f"{k}|{v!r}|".encode())
+    return h.hexdigest()[:16]
+
+
+def violation_payload(case: dict, where: str):
+    """replay dict of a broken relation: the case (site, kind, cfg index, n, seed, transformation), the configuration it
+    indexes (so that a reordered table is noticed) and the fingerprint of the generated input"""
+    s, cfg, d = case_input(case)
+    return {"kind": "metamorphic-case", "case": case, "where": where, "cfg": dict(cfg), "fingerprint": fingerprint(d)}
+
+
+def eval_case(case: dict, with_model=False):
+    """-> dict(skipped=bool, problems=[(level, signature-suffix, message)], stats)"""
+    s, cfg, d = case_input(case)
     tr = transform(s, cfg, d, case)
     if tr is None:
         return {"skipped": True, "problems": [], "stats": {}}
@@ -876,7 +903,7 @@ def run_cases(rep: Report, cases, deadline, with_model, stream):
         for level, where, msg in res["problems"]:
             n_bad += 1
             if level == "real":
-                rep.violation(signature(case, where), f"{describe(case)}: {where} result on x and on T(x) violate the relation: {msg}", {"case": case})
+                rep.violation(signature(case, where), f"{describe(case)}: {where} result on x and on T(x) violate the relation: {msg}", violation_payload(case, where))
             elif level == "harness":
                 rep.broke(f"generator:{case['site']}:{where}", f"{describe(case)}: {msg}", {"case": case})
             elif level == "model":
@@ -892,23 +919,41 @@ def run_cases(rep: Report, cases, deadline, with_model, stream):
 
 # ----------------------------------------------------------------------------- extra streams (real vs real)
 
-def extra_case(kind: str, name: str, seed: int) -> tuple[bool, str]:
-    """one deterministic extra case; returns (holds, description).
+def extra_inputs(kind: str, name: str, seed: int) -> dict:
+    """the concrete data of one deterministic extra case (tensors with their dtype; scalar weights as the python float / int they are)"""
+    g = torch.Generator().manual_seed(seed)
+    if kind == "fine-scale":
+        n, C = 400, 8
+        j = torch.stack([torch.randperm(64, generator=g)[:C] for _ in range(n)]).to(torch.float64)
+        x = 0.5 + j * 2.0 ** -40
+        tgt = torch.randint(0, C, (n,), generator=g)
+        y01 = torch.randint(0, 2, (n,), generator=g)
+        return {"x": x, "tgt": tgt, "y01": y01}
+    if kind == "mixed-weight-scale":
+        T = 2 if name.endswith("[tasks=2]") else 1
+        shape = (300,) if T == 1 else (T, 300)
+        ups = []
+        for i in range(4):
+            x = torch.randint(1, 8, shape, generator=g).float() / 8
+            y = torch.randint(0, 2, shape, generator=g).float()
+            w = (torch.randint(1, 5, shape, generator=g).float()) if i % 2 == 0 else [2.0, 3][i // 2]
+            ups.append((x, y, w))
+        return {"ups": ups}
+    raise ValueError(kind)
+
+
+def extra_verdict(kind: str, name: str, inp: dict) -> tuple[bool, str]:
+    """(holds, description) of one extra case on its concrete data (`extra_inputs`, or the data recorded with a violation).
     kind "fine-scale": float64 scores 0.5 + j·2^-40 (distinct, far below float32 resolution) against the exact zoom
         x ↦ (x − 0.5)·2^30, a strictly increasing map — a rank metric that rounds its scores to float32 first collapses the
         former to ties but not the latter.
     kind "mixed-weight-scale": a class metric whose updates alternate tensor weights and plain float / int weights; every
         weight is then multiplied by c — a per-update scalar weight that is silently dropped (it cancels within ONE call)
         breaks the invariance only across accumulated updates."""
-    g = torch.Generator().manual_seed(seed)
     if kind == "fine-scale":
-        n, C = 400, 8
-        j = torch.stack([torch.randperm(64, generator=g)[:C] for _ in range(n)]).to(torch.float64)
-        x = 0.5 + j * 2.0 ** -40
+        x, tgt, y01 = inp["x"], inp["tgt"], inp["y01"]
         z = (x - 0.5) * 2.0 ** 30
         assert bool(((x[:, :, None] < x[:, None, :]) == (z[:, :, None] < z[:, None, :])).all())
-        tgt = torch.randint(0, C, (n,), generator=g)
-        y01 = torch.randint(0, 2, (n,), generator=g)
         fns = {"hit_rate": lambda s: F.hit_rate(s, tgt, k=3), "reciprocal_rank": lambda s: F.reciprocal_rank(s, tgt),
                "HitRate": lambda s: M.HitRate(k=2).update(s, tgt).compute(), "ReciprocalRank": lambda s: M.ReciprocalRank(k=4).update(s, tgt).compute(),
                "multiclass_accuracy[k=3]": lambda s: F.multiclass_accuracy(s, tgt, k=3),
@@ -920,13 +965,8 @@ def extra_case(kind: str, name: str, seed: int) -> tuple[bool, str]:
     if kind == "mixed-weight-scale":
         T = 2 if name.endswith("[tasks=2]") else 1
         base = name.split("[")[0]
-        shape = (300,) if T == 1 else (T, 300)
-        ups = []
-        for i in range(4):
-            x = torch.randint(1, 8, shape, generator=g).float() / 8
-            y = torch.randint(0, 2, shape, generator=g).float()
-            w = (torch.randint(1, 5, shape, generator=g).float()) if i % 2 == 0 else [2.0, 3][i // 2]
-            ups.append((x, y, w))
+        ups = inp["ups"]
+
         def run(c):
             if base in ("WeightedCalibration", "WindowedWeightedCalibration"):
                 m = M.WeightedCalibration(num_tasks=T) if base == "WeightedCalibration" else M.WindowedWeightedCalibration(num_tasks=T, max_num_updates=3)
@@ -947,6 +987,31 @@ def extra_case(kind: str, name: str, seed: int) -> tuple[bool, str]:
     raise ValueError(kind)
 
 
+def extra_case(kind: str, name: str, seed: int) -> tuple[bool, str]:
+    """one deterministic extra case; returns (holds, description)."""
+    return extra_verdict(kind, name, extra_inputs(kind, name, seed))
+
+
+def _tdesc(t: torch.Tensor):
+    return {"shape": list(t.shape), "dtype": str(t.dtype).replace("torch.", ""), "data": t.reshape(-1).tolist()}
+
+
+def _tundesc(d):
+    return torch.tensor(d["data"], dtype=getattr(torch, d["dtype"])).reshape(tuple(d["shape"]))
+
+
+def extra_inputs_json(inp: dict) -> dict:
+    if "ups" in inp:
+        return {"ups": [[_tdesc(x), _tdesc(y), (_tdesc(w) if isinstance(w, torch.Tensor) else w)] for x, y, w in inp["ups"]]}
+    return {k: _tdesc(v) for k, v in inp.items()}
+
+
+def extra_inputs_from_json(j: dict) -> dict:
+    if "ups" in j:
+        return {"ups": [(_tundesc(x), _tundesc(y), (_tundesc(w) if isinstance(w, dict) else w)) for x, y, w in j["ups"]]}
+    return {k: _tundesc(v) for k, v in j.items()}
+
+
 EXTRA = ([("fine-scale", n) for n in ("hit_rate", "reciprocal_rank", "HitRate", "ReciprocalRank", "multiclass_accuracy[k=3]", "binary_auroc", "binary_auprc", "retrieval_precision")]
          + [("mixed-weight-scale", n) for n in ("WeightedCalibration", "WeightedCalibration[tasks=2]", "WindowedWeightedCalibration", "ClickThroughRate", "ClickThroughRate[tasks=2]", "WindowedClickThroughRate")])
 
@@ -956,14 +1021,16 @@ def extra_streams(rep: Report):
         for r in range(2 if rep.tier == "quick" else 8):
             seed = rep.seed * 7919 + 31 * r + 5
             try:
-                ok, what = extra_case(kind, name, seed)
+                inp = extra_inputs(kind, name, seed)
+                ok, what = extra_verdict(kind, name, inp)
             except Exception as e:  # noqa: BLE001
                 rep.broke(f"harness-exception:{kind}:{name}", repr(e)[:300], {"case": {"extra": kind, "name": name, "seed": seed}})
                 continue
             rep.case(nontrivial_key=("extra", kind, name, seed), sample=None)
             rep.count(f"extra:{kind}")
             if not ok:
-                rep.violation(f"C17|{name}|{kind}|relation-broken", what, {"case": {"extra": kind, "name": name, "seed": seed}})
+                rep.violation(f"C17|{name}|{kind}|relation-broken", what,
+                              {"kind": "extra-case", "case": {"extra": kind, "name": name, "seed": seed}, "inputs": extra_inputs_json(inp)})
                 break
 
 def run(rep: Report):
@@ -991,12 +1058,65 @@ def search(rep: Report):
     run_cases(rep, cases, time.time() + 120, False, "search")
 
 
+def _nothing(reason):
+    raise ValueError(f"nothing to replay: {reason}")
+
+
 def replay(payload) -> bool:
-    case = payload["replay"]["case"] if "replay" in payload else payload["case"]
-    if "extra" in case:
-        ok, what = extra_case(case["extra"], case["name"], case["seed"])
+    """True iff the metamorphic relation holds on the recorded case (functional AND class form on x and T(x), real code only).
+    The input (2 000 … 20 000 samples) is not stored: it is a pure function of (site generator, configuration, n, seed); the
+    payload carries the configuration and a content fingerprint of the input that failed, and a replay that does not regenerate
+    exactly that input refuses to answer.  The verdict is `eval_case`, the function of the sweep and of search()."""
+    if not isinstance(payload, dict):
+        _nothing("payload is not a dict")
+    if "replay" in payload or "property" in payload:
+        if payload.get("kind", "failing-input") != "failing-input":
+            _nothing(f"payload kind {payload.get('kind')!r} carries no concrete input")
+        rp = payload.get("replay")
+    else:
+        rp = payload
+    if not isinstance(rp, dict) or not rp:
+        _nothing("the payload carries no replay dict")
+    case = rp.get("case")
+    if rp.get("kind") == "extra-case" or (isinstance(case, dict) and "extra" in case):
+        # extra streams: the recorded data (tensors with dtype, scalar weights as python numbers) through `extra_verdict`;
+        # payloads without the data regenerate it from (kind, name, seed)
+        if not isinstance(case, dict) or (case.get("extra"), case.get("name")) not in EXTRA:
+            _nothing(f"unknown extra case {case!r}")
+        if isinstance(rp.get("inputs"), dict):
+            inp = extra_inputs_from_json(rp["inputs"])
+        elif isinstance(case.get("seed"), int):
+            inp = extra_inputs(case["extra"], case["name"], case["seed"])
+        else:
+            _nothing("extra case without recorded data or seed")
+        ok, what = extra_verdict(case["extra"], case["name"], inp)
         if not ok:
             print("replay:", what[:500])
         return ok
+    if rp.get("kind", "metamorphic-case") != "metamorphic-case":
+        _nothing(f"replay kind {rp.get('kind')!r} is not a metamorphic case")
+    if not isinstance(case, dict) or not all(k in case for k in ("site", "kind", "cfg", "n", "seed")):
+        _nothing("the payload carries no case (site, kind, cfg, n, seed, transformation)")
+    if case["site"] not in SITES:
+        _nothing(f"unknown site {case['site']!r}")
+    s = SITES[case["site"]]
+    if not isinstance(case["cfg"], int) or not (0 <= case["cfg"] < len(s.cfgs)):
+        _nothing(f"configuration index {case['cfg']!r} is outside the table of {case['site']}")
+    need = {"mono": "map", "monothr": "map", "scale": "c", "relabel": "sigma", "dup": None}
+    if case["kind"] not in need or (need[case["kind"]] and need[case["kind"]] not in case):
+        _nothing(f"transformation of kind {case['kind']!r} is not described in the case")
+    if "cfg" in rp and dict(s.cfgs[case["cfg"]]) != rp["cfg"]:
+        _nothing(f"configuration #{case['cfg']} of {case['site']} is now {s.cfgs[case['cfg']]}, the case was recorded with {rp['cfg']}")
+    if "fingerprint" in rp:
+        fp = fingerprint(case_input(case)[2])
+        if fp != rp["fingerprint"]:
+            _nothing(f"the regenerated input (fingerprint {fp}) is not the recorded one ({rp['fingerprint']}): generator or torch RNG changed")
     res = eval_case(case, with_model=False)
-    return not any(level == "real" for level, _, _ in res["problems"])
+    if res["skipped"]:
+        _nothing("the precondition of the relation (strictly increasing map on the generated values) does not hold: case skipped")
+    real = [(where, msg) for level, where, msg in res["problems"] if level == "real"]
+    if not real and any(level == "harness" for level, _, _ in res["problems"]):
+        _nothing("the real code raises on the recorded valid input: the relation between f(x) and f(T x) is undecided")
+    for where, msg in real:
+        print(f"replay: {signature(case, where)}: {msg}"[:500])
+    return not real
